@@ -278,7 +278,9 @@ class SinexParser(Parser):
                 lines = [
                     ln for ln in itertools.takewhile(lambda ln: not ln.startswith(b"-"), fid) if ln.startswith(b" ")
                 ]
-                self._sinex[marker] = self.parse_lines(lines, sinex_blocks[marker].fields)
+                # A block with a single line is returned by np.genfromtxt as a 0-dimensional array, which can
+                # neither be iterated over nor stacked by the block parsers: always keep one entry per line
+                self._sinex[marker] = np.atleast_1d(self.parse_lines(lines, sinex_blocks[marker].fields))
                 if params:
                     self._sinex.setdefault("__params__", dict())[marker] = params
                 del sinex_blocks[marker]
